@@ -205,6 +205,9 @@ func (d *drv) heal(why string) {
 func (d *drv) ename(err error) string {
 	e := errName(err)
 	if strings.HasPrefix(e, "other:") && d.dirty {
+		if os.Getenv("VERIF_DEBUG") != "" {
+			fmt.Fprintf(os.Stderr, "seqdb: error echoing a fault: %v\n", err)
+		}
 		return "fail"
 	}
 	return e
@@ -623,6 +626,16 @@ func (d *drv) finish() {
 	os.Exit(0)
 }
 
+// stopRun ends the run after behaviour of the real code that the trace already records (the validator judges it).
+func (d *drv) stopRun(reason string) {
+	d.tr.Close()
+	m := d.summary()
+	m["stopped"] = reason
+	b, _ := json.Marshal(m)
+	fmt.Println(string(b))
+	os.Exit(0)
+}
+
 func (d *drv) fatal(f string, a ...interface{}) {
 	d.tr.Close()
 	fmt.Fprintf(os.Stderr, "seqdb: "+f+"\n", a...)
@@ -880,6 +893,13 @@ func (d *drv) doTxEnd(commit bool) {
 		err := tx.Commit()
 		done()
 		d.emit(vt.Ev{"ev": "txcommit", "err": d.ename(err)})
+		// "Return error, lets user decide either to retry or discard transaction": do both
+		for try := 0; err != nil && d.ename(err) == "fail" && try < 2 && d.rng.Intn(2) == 0; try++ {
+			done := d.in("txcommit")
+			err = tx.Commit()
+			done()
+			d.emit(vt.Ev{"ev": "txcommit", "err": d.ename(err)})
+		}
 		if err != nil {
 			tx.Discard()
 			d.emit(vt.Ev{"ev": "txdiscard"})
@@ -1148,10 +1168,12 @@ func (d *drv) c08op() {
 			d.doTxWrite()
 		case r < 650:
 			d.doTxRead(d.rng.Intn(n))
-		case r < 850:
+		case r < 840:
 			d.doTxEnd(true)
-		default:
+		case r < 960:
 			d.doTxEnd(false)
+		default:
+			d.doReopenF() // Close with the transaction still open: it is discarded, Close returns
 		}
 		return
 	}
@@ -1194,12 +1216,14 @@ func (d *drv) doReopenF() {
 			return
 		}
 		if d.ename(err) != "fail" {
-			d.fatal("reopen failed without a fault: %v", err)
+			// not an echo of the injected error (e.g. a corruption report on intact files): recorded above, the validator decides
+			d.stopRun(fmt.Sprintf("reopen failed: %v", err))
 		}
 		d.stor.ForceUnlock()
 		d.heal("healed-for-reopen")
 	}
-	d.fatal("reopen keeps failing after the faults stopped")
+	d.emit(vt.Ev{"ev": "reopen", "ro": 0, "err": "stuck"})
+	d.stopRun("reopen keeps failing after the faults stopped")
 }
 
 // ---- engine hooks: version installations, references, removals (C06, C07) ----
@@ -1326,7 +1350,19 @@ func (d *drv) settlePoint() {
 	if d.tx != nil {
 		d.doTxEnd(false)
 	}
-	leveldb.VerifWaitIdle(d.db)
+	// while a compaction is between two attempts (a transient error is pending) the wait reports that error at once:
+	// the background work has not drained; keep waiting for the retry (back-off up to 8 s) to go through
+	var werr error
+	for t := 0; t < 600; t++ {
+		if werr = leveldb.VerifWaitIdle(d.db); werr == nil {
+			break
+		}
+		time.Sleep(50 * time.Millisecond)
+	}
+	if werr != nil {
+		d.emit(vt.Ev{"ev": "note", "what": "no settle point: background work keeps failing", "err": werr.Error()})
+		return
+	}
 	leveldb.VerifFileRefs(d.db) // round trip through the reference loop: earlier messages are processed
 	_, lv := leveldb.VerifVersion(d.db)
 	leveldb.VerifFileRefs(d.db)
@@ -1367,8 +1403,12 @@ func (d *drv) reclaim() {
 	}
 	err := d.db.Write(b, nil)
 	d.emit(vt.Ev{"ev": "write", "ops": opsJSON(ops), "err": d.ename(err), "api": "write", "big": 0})
+	werr := err
 	err = d.db.CompactRange(util.Range{})
 	d.emit(vt.Ev{"ev": "compact", "lo": 0, "hi": d.u.N(), "err": d.ename(err)})
+	if werr != nil || err != nil {
+		return // the delete-everything write or the compaction was refused (a fault is still echoing): nothing to measure
+	}
 	d.settlePoint()
 	bytes := 0
 	for _, f := range d.stor.Files() {
@@ -1380,6 +1420,22 @@ func (d *drv) reclaim() {
 }
 
 func (d *drv) stepLSM() {
+	if d.plan != nil && !d.postHeal {
+		// C07 under storage faults: once the failures have stopped and the background work has drained,
+		// the storage must hold exactly the live files (a failed table build leaves nothing behind)
+		d.fmu.Lock()
+		inj := d.injected
+		d.fmu.Unlock()
+		if inj > 0 {
+			d.afterFault++
+			if d.afterFault > 3+d.rng.Intn(5) {
+				d.postHeal = true
+				d.heal("healed")
+				d.settlePoint()
+				return
+			}
+		}
+	}
 	r := d.rng.Intn(1000)
 	n := d.u.N()
 	switch {
@@ -1609,8 +1665,12 @@ func (d *drv) step() {
 					before := d.nextH
 					d.doIterNew("tx")
 					if it, ok := d.its[d.nextH]; ok && d.nextH != before {
-						d.walk(d.nextH, it, 4+d.rng.Intn(10))
-						d.doIterRel(d.nextH, it)
+						h := d.nextH
+						for w := d.rng.Intn(4); w > 0 && d.tx != nil; w-- {
+							d.doTxWrite() // the iterator is a frozen view of the transaction: later writes and spills do not show
+						}
+						d.walk(h, it, 4+d.rng.Intn(10))
+						d.doIterRel(h, it)
 					}
 				}
 				if d.tx != nil {
@@ -1792,6 +1852,10 @@ func main() {
 		})
 	}
 	if *mode == "c06" {
+		if *fault != "" {
+			d.plan = parseFault(*fault)
+			d.hookFaults()
+		}
 		d.hookEngine()
 	}
 	for i := 0; i < *n; i++ {
